@@ -56,6 +56,12 @@ func init() {
 			"'forged' means wrong key / wrong message / mutated bytes, not a cryptographic forgery",
 			"the transaction id of the simple transactions used here is taken from the harness's own ICON v3 serializer (lib/sig)",
 		},
+		TimeoutSec: func(t string) int {
+			if t == ev.Thorough {
+				return 3600
+			}
+			return 600
+		},
 		Run: run,
 	})
 }
